@@ -15,6 +15,16 @@ package executors
 // Environment control (never part of a verdict): pe.newTicker is replaced by a factory of
 // hand-driven unbuffered tickers (creation = flusher start, Stop = flusher retiring), and the
 // virtual clock of lib/timex (build tag verif) decides when 10 idle intervals have passed.
+// The function installed as the virtual clock is also a scheduling point inside the flusher:
+// timex.Since is called by shallQuit between the tick's empty Flush and the lock region that
+// clears pe.guarded, so a one-shot hook run from there places Adds exactly on the retiring tick
+// (scenario "retiring").
+//
+// Every history is judged against the configuration of ITS OWN executor (reset event: max and
+// interval = the explicit option, or the package's default constant where the option was left
+// out).  Scenario "multi" creates two or three executors of one kind in sequence in this
+// process, with different explicit / defaulted options, and uses them one after the other or
+// at the same time; their events are buffered per executor and written as one history each.
 
 import (
 	"fmt"
@@ -36,12 +46,23 @@ type c16 struct {
 	tr    *kit.Tracer
 	rng   *rand.Rand
 	clock *kit.Clock
-	n     int
+	n     atomic.Int64
 	base  int // goroutines of the idle test process (histories run one after the other)
 	cnt   map[string]*atomic.Int64
+	turnR int           // rotates the kinds of the "retiring" scenario
+	turnM int           // rotates the kinds of the "multi" scenario
 	grace time.Duration // how long a call may stay unreturned (environment kept going) before it is recorded as hung
-	hung  bool          // a hang was recorded: recording stops (the stuck goroutines cannot be joined)
+	hung  atomic.Bool   // a hang was recorded: recording stops (the stuck goroutines cannot be joined)
 	path  string
+	hook  atomic.Pointer[func()] // one-shot scheduling point run from inside the next virtual-clock read
+}
+
+// now is the function installed with timex.SetVerifClock.
+func (c *c16) now() time.Duration {
+	if f := c.hook.Load(); f != nil {
+		(*f)()
+	}
+	return c.clock.Now()
 }
 
 func (c *c16) ev(m kit.M) { c.tr.Emit(m) }
@@ -50,7 +71,9 @@ func (c *c16) count(name string) {
 }
 
 var c16Counters = []string{"hist_per", "hist_bulk", "hist_chunk", "hist_handover", "adds", "waits", "flushes", "ticks", "jumps",
-	"flusher_starts", "flusher_stops", "takes_nonempty", "execs", "hist_quitrace", "hangs"}
+	"flusher_starts", "flusher_stops", "takes_nonempty", "execs", "hist_quitrace", "hangs",
+	"hist_retiring", "retiring_hit", "retiring_stop_hit", "retiring_final_hit", "rests", "hist_multi", "multi_execs", "multi_defaulted", "multi_concurrent",
+	"default_full_batches", "tickers_timed"}
 
 func c16infra(format string, a ...any) {
 	// harness trouble is never a verdict: dump and leave with a code the check maps to exit 2
@@ -85,9 +108,12 @@ type c16ticker struct {
 func (t *c16ticker) Chan() <-chan time.Time { return t.ch }
 func (t *c16ticker) Stop() {
 	t.once.Do(func() {
-		t.h.c.ev(kit.M{"e": "fstop", "n": t.n})
+		t.h.ev(kit.M{"e": "fstop", "n": t.n})
 		t.h.c.count("flusher_stops")
 		close(t.stopped)
+		if f := t.h.onStop.Load(); f != nil {
+			(*f)() // scheduling point of a directed scenario: the retiring flusher is in its deferred ticker.Stop()
+		}
 	})
 }
 
@@ -104,6 +130,35 @@ type c16hist struct {
 	added   []int           // tasks handed to Add (guarded by mu)
 	execd   map[int]bool    // tasks whose execution has returned (guarded by mu)
 	t0      time.Time
+	rng     *rand.Rand                  // this history's own source (histories of a "multi" scenario run side by side)
+	iv      time.Duration               // the interval this executor was configured with (unit of the environment's clock jumps)
+	obs     atomic.Int64                // longest period a ticker of this executor was created with
+	frozen  bool                        // this history was closed with a `hang` event (guarded by mu)
+	solo    bool                        // no other executor is active: the process's goroutine count tells when this one is at rest
+	rested  bool                        // a `rest` event was recorded
+	quiet   bool                        // finished; `quiesce` is due once the goroutines of all executors are joined (!solo)
+	bufd    bool                        // events are collected in buf and written as one history afterwards
+	onStop  atomic.Pointer[func()]      // directed scenarios: run inside ticker.Stop()
+	onExec  atomic.Pointer[func([]int)] // directed scenarios: run inside the execute callback (between xb and xe)
+	bmu     sync.Mutex
+	buf     []kit.M
+}
+
+// ev records one event of this history.  Buffered histories take their sequence order under
+// bmu exactly as the tracer does under its own mutex.
+func (h *c16hist) ev(m kit.M) {
+	if !h.bufd {
+		h.c.ev(m)
+		return
+	}
+	h.bmu.Lock()
+	h.buf = append(h.buf, m)
+	h.bmu.Unlock()
+}
+
+// begin opens the history: what this executor is configured with.
+func (h *c16hist) begin(kind string, max int, sc string) {
+	h.ev(kit.M{"e": "reset", "kind": kind, "max": max, "sc": sc, "iv": int(h.iv / time.Millisecond)})
 }
 
 type c16call struct {
@@ -121,29 +176,29 @@ func (h *c16hist) call(p int, op string, t, size int, fn func()) {
 	h.mu.Unlock()
 	switch op {
 	case "add":
-		h.c.ev(kit.M{"e": "ainv", "p": p, "t": t, "s": size})
+		h.ev(kit.M{"e": "ainv", "p": p, "t": t, "s": size})
 	case "wait":
-		h.c.ev(kit.M{"e": "winv", "p": p})
+		h.ev(kit.M{"e": "winv", "p": p})
 	case "flush":
-		h.c.ev(kit.M{"e": "finv", "p": p})
+		h.ev(kit.M{"e": "finv", "p": p})
 	}
 	fn()
 	h.mu.Lock()
 	delete(h.calls, p)
-	frozen := h.c.hung
+	frozen := h.frozen
 	h.mu.Unlock()
 	if frozen {
 		return // the history was closed with a `hang` event; late returns are not part of it
 	}
 	switch op {
 	case "add":
-		h.c.ev(kit.M{"e": "aret", "p": p})
+		h.ev(kit.M{"e": "aret", "p": p})
 		h.c.count("adds")
 	case "wait":
-		h.c.ev(kit.M{"e": "wret", "p": p})
+		h.ev(kit.M{"e": "wret", "p": p})
 		h.c.count("waits")
 	case "flush":
-		h.c.ev(kit.M{"e": "fret", "p": p})
+		h.ev(kit.M{"e": "fret", "p": p})
 		h.c.count("flushes")
 	}
 }
@@ -196,7 +251,8 @@ func (h *c16hist) await(done <-chan struct{}, drive bool) bool {
 
 func (h *c16hist) hang() {
 	h.mu.Lock()
-	h.c.hung = true
+	h.frozen = true
+	h.c.hung.Store(true)
 	calls := []kit.M{}
 	op := ""
 	rank := map[string]int{"add": 3, "wait": 2, "flush": 1}
@@ -220,20 +276,38 @@ func (h *c16hist) hang() {
 	if op == "" {
 		op = "none"
 	}
-	h.c.ev(kit.M{"e": "hang", "op": op, "calls": calls, "unexecuted": unexec, "stacks": stacks,
+	h.ev(kit.M{"e": "hang", "op": op, "calls": calls, "unexecuted": unexec, "stacks": stacks,
 		"grace_ms": int(h.c.grace / time.Millisecond)})
 	h.c.count("hangs")
-	h.c.n++
+	h.c.n.Add(1)
 }
 
-func (h *c16hist) newTicker(time.Duration) timex.Ticker {
+func (h *c16hist) newTicker(d time.Duration) timex.Ticker {
 	h.mu.Lock()
 	t := &c16ticker{n: len(h.tickers) + 1, ch: make(chan time.Time), stopped: make(chan struct{}), h: h}
 	h.tickers = append(h.tickers, t)
 	h.mu.Unlock()
-	h.c.ev(kit.M{"e": "fstart", "n": t.n})
+	for o := h.obs.Load(); int64(d) > o && !h.obs.CompareAndSwap(o, int64(d)); o = h.obs.Load() {
+	}
+	// d: the period the executor asks its ticker for ("the periodic tick" of the configured interval)
+	h.ev(kit.M{"e": "fstart", "n": t.n, "d": int(d / time.Millisecond)})
 	h.c.count("flusher_starts")
+	h.c.count("tickers_timed")
 	return t
+}
+
+// unit is the environment's idea of one flush interval: the configured one, or a longer one
+// that the executor actually asked a ticker for (the environment must be able to make any
+// flusher retire; whether the period is the configured one is the acceptor's business).
+func (h *c16hist) unit() time.Duration {
+	d := h.iv
+	if o := time.Duration(h.obs.Load()); o > d {
+		d = o
+	}
+	if d <= 0 {
+		d = c16Interval
+	}
+	return d
 }
 
 func (h *c16hist) live() *c16ticker {
@@ -258,7 +332,7 @@ func (h *c16hist) tick() bool {
 	}
 	select {
 	case t.ch <- time.Time{}:
-		h.c.ev(kit.M{"e": "tick", "n": t.n})
+		h.ev(kit.M{"e": "tick", "n": t.n})
 		h.c.count("ticks")
 		return true
 	case <-t.stopped:
@@ -269,8 +343,8 @@ func (h *c16hist) tick() bool {
 }
 
 func (h *c16hist) jump() {
-	h.c.clock.Advance(11 * c16Interval)
-	h.c.ev(kit.M{"e": "jump"})
+	h.c.clock.Advance(11 * h.unit())
+	h.ev(kit.M{"e": "jump"})
 	h.c.count("jumps")
 }
 
@@ -286,18 +360,30 @@ func (h *c16hist) retire() {
 	deadline := time.Now().Add(15 * time.Second)
 	for h.guarded() {
 		h.jump()
-		if h.hand {
-			h.tick()
-		} else {
-			time.Sleep(200 * time.Microsecond)
+		if !h.hand || !h.tick() {
+			time.Sleep(200 * time.Microsecond) // (no ticker to hand a tick to: the flusher is on its way out)
 		}
 		if time.Now().After(deadline) {
 			c16infra("flusher did not retire")
 		}
 	}
-	if !kit.WaitGoroutines(h.base, 15*time.Second) {
+	if h.solo && !kit.WaitGoroutines(h.base, 15*time.Second) {
 		c16infra("goroutines did not settle: have %d want <= %d", runtime.NumGoroutine(), h.base)
 	}
+}
+
+// rest: with no public call in progress the environment alone (ticks, clock jumps) runs until
+// the background flusher has retired and every goroutine of the executor has ended; the `rest`
+// event marks that point.  No Add/Flush/Wait is called to get there, so whatever the executor
+// still holds now would be flushed by no trigger (TLC rejects the history in that case).
+func (h *c16hist) rest() {
+	if !h.solo {
+		return
+	}
+	h.retire()
+	h.ev(kit.M{"e": "rest"})
+	h.c.count("rests")
+	h.rested = true
 }
 
 // run starts g callers (process ids 1..g) released together, plus the environment goroutine.
@@ -306,7 +392,7 @@ func (h *c16hist) run(g int, body func(p int, r *rand.Rand), env func(r *rand.Ra
 	start := make(chan struct{})
 	for p := 1; p <= g; p++ {
 		wg.Add(1)
-		seed := h.c.rng.Int63()
+		seed := h.rng.Int63()
 		go func(p int) {
 			defer wg.Done()
 			r := rand.New(rand.NewSource(seed))
@@ -316,7 +402,7 @@ func (h *c16hist) run(g int, body func(p int, r *rand.Rand), env func(r *rand.Ra
 	}
 	stop := make(chan struct{})
 	envDone := make(chan struct{})
-	eseed := h.c.rng.Int63()
+	eseed := h.rng.Int63()
 	go func() {
 		defer close(envDone)
 		if env != nil {
@@ -383,6 +469,7 @@ type c16container struct {
 	h      *c16hist
 	tasks  []any
 	thr    int           // AddTask asks for a flush when len(tasks) >= thr (0: never)
+	onAdd  func(t int)   // directed scenarios: called under pe.lock after logging
 	onTake func(b []int) // directed scenarios: called under pe.lock after logging
 	onExec func(b []int) // directed scenarios: called between xb and xe
 	r      *rand.Rand    // jitter inside Execute (guarded by rmu)
@@ -392,7 +479,10 @@ type c16container struct {
 func (rc *c16container) AddTask(task any) bool {
 	t := task.(c16task)
 	rc.tasks = append(rc.tasks, t)
-	rc.c.ev(kit.M{"e": "add", "p": t.p, "t": t.id})
+	rc.h.ev(kit.M{"e": "add", "p": t.p, "t": t.id})
+	if rc.onAdd != nil {
+		rc.onAdd(t.id)
+	}
 	return rc.thr > 0 && len(rc.tasks) >= rc.thr
 }
 
@@ -400,7 +490,7 @@ func (rc *c16container) RemoveAll() any {
 	ts := rc.tasks
 	rc.tasks = nil
 	b := c16ids(ts)
-	rc.c.ev(kit.M{"e": "take", "b": b})
+	rc.h.ev(kit.M{"e": "take", "b": b})
 	if len(b) > 0 {
 		rc.c.count("takes_nonempty")
 	}
@@ -412,10 +502,12 @@ func (rc *c16container) RemoveAll() any {
 
 func (rc *c16container) Execute(tasks any) {
 	b := c16ids(tasks.([]any))
-	rc.c.ev(kit.M{"e": "xb", "b": b})
+	rc.h.ev(kit.M{"e": "xb", "b": b})
 	rc.c.count("execs")
 	if rc.onExec != nil {
 		rc.onExec(b)
+	} else if f := rc.h.onExec.Load(); f != nil {
+		(*f)(b)
 	} else {
 		rc.rmu.Lock()
 		k := rc.r.Intn(4)
@@ -427,20 +519,21 @@ func (rc *c16container) Execute(tasks any) {
 			time.Sleep(50 * time.Microsecond)
 		}
 	}
-	rc.c.ev(kit.M{"e": "xe", "b": b})
+	rc.h.ev(kit.M{"e": "xe", "b": b})
 	rc.h.noteExec(b)
 }
 
 func (c *c16) newHist() *c16hist {
-	return &c16hist{c: c, base: c.base, hand: true, calls: map[int]c16call{}, execd: map[int]bool{}, t0: time.Now()}
+	return &c16hist{c: c, base: c.base, hand: true, calls: map[int]c16call{}, execd: map[int]bool{}, t0: time.Now(),
+		rng: rand.New(rand.NewSource(c.rng.Int63())), iv: c16Interval, solo: true}
 }
 
 // periodical: randomized stress of the PeriodicalExecutor with the recording container.
 func (c *c16) periodical() {
 	thr := []int{1, 1, 2, 2, 3, 4, 0}[c.rng.Intn(7)]
-	c.ev(kit.M{"e": "reset", "kind": "per", "max": thr, "sc": "stress"})
 	c.count("hist_per")
 	h := c.newHist()
+	h.begin("per", thr, "stress")
 	rc := &c16container{c: c, h: h, thr: thr, r: rand.New(rand.NewSource(c.rng.Int63()))}
 	h.pe = NewPeriodicalExecutor(c16Interval, rc)
 	h.pe.newTicker = h.newTicker
@@ -466,7 +559,13 @@ func (c *c16) periodical() {
 }
 
 // finish: final Wait by the main goroutine (p = 0), flusher retired, goroutines joined.
+// In half of the histories the executor is first left alone with its ticker and the clock
+// until it is at rest (see rest): every trigger but the caller's own Flush/Wait has to have
+// done its work by then.
 func (c *c16) finish(h *c16hist, wait func()) {
+	if h.solo && !h.rested && h.rng.Intn(2) == 0 {
+		h.rest()
+	}
 	done := make(chan struct{})
 	go func() {
 		h.call(0, "wait", 0, 0, wait)
@@ -476,8 +575,12 @@ func (c *c16) finish(h *c16hist, wait func()) {
 		return
 	}
 	h.retire()
-	c.ev(kit.M{"e": "quiesce"})
-	c.n++
+	if !h.solo {
+		h.quiet = true // `quiesce` once the goroutines of all executors of the scenario are joined
+		return
+	}
+	h.ev(kit.M{"e": "quiesce"})
+	c.n.Add(1)
 }
 
 // step runs one part of a directed scenario in its own goroutine and waits for it; a call
@@ -512,9 +615,9 @@ func c16settle() {
 // execution of that batch is held back until caller 2's Wait has returned or 150 ms passed
 // (an executor that honours the property makes the time-out fire; the verdict is TLC's).
 func (c *c16) handover() {
-	c.ev(kit.M{"e": "reset", "kind": "per", "max": 2, "sc": "handover"})
 	c.count("hist_handover")
 	h := c.newHist()
+	h.begin("per", 2, "handover")
 	gateA := make(chan struct{})
 	firstRunning := make(chan struct{})
 	took2 := make(chan struct{}, 64)
@@ -587,9 +690,9 @@ func (c *c16) handover() {
 // everything is released.  The flusher must not retire while that batch is in flight - if it
 // does, nobody executes the batch and the Add never returns (recorded as a `hang`).
 func (c *c16) quitrace() {
-	c.ev(kit.M{"e": "reset", "kind": "per", "max": 2, "sc": "quitrace"})
 	c.count("hist_quitrace")
 	h := c.newHist()
+	h.begin("per", 2, "quitrace")
 	gate := make(chan struct{})
 	running := make(chan struct{})
 	took2 := make(chan struct{}, 64)
@@ -655,9 +758,117 @@ func (c *c16) quitrace() {
 // ---------------------------------------------------------------- kinds "bulk" / "chunk": public API
 
 type c16pub struct {
-	add   func(task, size int)
+	add   func(p, task, size int)
 	flush func()
 	wait  func()
+}
+
+// c16cfg is what one executor is configured with.  max / iv are the values the executor has
+// to honour: the explicit option where one is passed (expMax / expIv), else the default
+// constant of the package under test (defaultBulkTasks, defaultChunkSize, defaultFlushInterval).
+type c16cfg struct {
+	kind   string // "per" | "bulk" | "chunk"
+	max    int
+	iv     time.Duration
+	expMax bool
+	expIv  bool
+}
+
+func c16config(kind string, max int, iv time.Duration) c16cfg {
+	cf := c16cfg{kind: kind, max: max, iv: iv, expMax: max > 0 || kind == "per", expIv: iv > 0}
+	if !cf.expMax {
+		cf.max = map[string]int{"bulk": defaultBulkTasks, "chunk": defaultChunkSize}[kind]
+	}
+	if !cf.expIv {
+		cf.iv = defaultFlushInterval
+	}
+	return cf
+}
+
+// build creates the executor of history h exactly as a user would (options passed only where
+// explicit) and opens the history with its configuration.
+func (c *c16) build(h *c16hist, cf c16cfg, sc string) c16pub {
+	h.iv = cf.iv
+	h.begin(cf.kind, cf.max, sc)
+	c.count("hist_" + cf.kind)
+	er := rand.New(rand.NewSource(h.rng.Int63()))
+	var emu sync.Mutex
+	execute := func(tasks []any) {
+		b := c16ids(tasks)
+		h.ev(kit.M{"e": "xb", "b": b})
+		c.count("execs")
+		if !cf.expMax && len(b) == cf.max {
+			c.count("default_full_batches")
+		}
+		if f := h.onExec.Load(); f != nil {
+			(*f)(b)
+		} else {
+			emu.Lock()
+			k := er.Intn(4)
+			emu.Unlock()
+			switch k {
+			case 1:
+				runtime.Gosched()
+			case 2:
+				time.Sleep(50 * time.Microsecond)
+			}
+		}
+		h.ev(kit.M{"e": "xe", "b": b})
+		h.noteExec(b)
+	}
+	var api c16pub
+	switch cf.kind {
+	case "bulk":
+		var opts []BulkOption
+		if cf.expMax {
+			opts = append(opts, WithBulkTasks(cf.max))
+		}
+		if cf.expIv {
+			opts = append(opts, WithBulkInterval(cf.iv))
+		}
+		be := NewBulkExecutor(execute, opts...)
+		h.pe = be.executor
+		api = c16pub{add: func(p, t, s int) { _ = be.Add(t) }, flush: be.Flush, wait: be.Wait}
+	case "chunk":
+		var opts []ChunkOption
+		if cf.expMax {
+			opts = append(opts, WithChunkBytes(cf.max))
+		}
+		if cf.expIv {
+			opts = append(opts, WithFlushInterval(cf.iv))
+		}
+		ce := NewChunkExecutor(execute, opts...)
+		h.pe = ce.executor
+		api = c16pub{add: func(p, t, s int) { _ = ce.Add(t, s) }, flush: ce.Flush, wait: ce.Wait}
+	default:
+		rc := &c16container{c: c, h: h, thr: cf.max, r: er}
+		h.pe = NewPeriodicalExecutor(cf.iv, rc)
+		pe := h.pe
+		api = c16pub{add: func(p, t, s int) { pe.Add(c16task{p: p, id: t, size: s}) }, flush: func() { pe.Flush() }, wait: pe.Wait}
+	}
+	if h.hand {
+		h.pe.newTicker = h.newTicker
+	}
+	return api
+}
+
+// stress: g callers doing nops random calls each, the environment goroutine ticking / jumping.
+func (h *c16hist) stress(api c16pub, g, nops int, sizes []int, env func(r *rand.Rand, stop <-chan struct{})) bool {
+	return h.run(g, func(p int, r *rand.Rand) {
+		for i := 0; i < nops; i++ {
+			c16jitter(r)
+			switch k := r.Intn(20); {
+			case k < 14:
+				id := int(h.ids.Add(1))
+				sz := sizes[r.Intn(len(sizes))]
+				h.call(p, "add", id, sz, func() { api.add(p, id, sz) })
+			case k < 17:
+				h.call(p, "wait", 0, 0, api.wait)
+			default:
+				h.call(p, "flush", 0, 0, api.flush)
+			}
+		}
+	}, env)
 }
 
 func (c *c16) public(kind string) {
@@ -669,45 +880,13 @@ func (c *c16) public(kind string) {
 		max = []int{1, 8, 10}[c.rng.Intn(3)]
 		sizes = []int{1, 2, 5, 8, 10, 13}
 	}
-	c.ev(kit.M{"e": "reset", "kind": kind, "max": max, "sc": "stress"})
-	c.count("hist_" + kind)
 	h := c.newHist()
 	h.hand = c.rng.Intn(2) == 0
-	er := rand.New(rand.NewSource(c.rng.Int63()))
-	var emu sync.Mutex
-	execute := func(tasks []any) {
-		b := c16ids(tasks)
-		c.ev(kit.M{"e": "xb", "b": b})
-		c.count("execs")
-		emu.Lock()
-		k := er.Intn(4)
-		emu.Unlock()
-		switch k {
-		case 1:
-			runtime.Gosched()
-		case 2:
-			time.Sleep(50 * time.Microsecond)
-		}
-		c.ev(kit.M{"e": "xe", "b": b})
-		h.noteExec(b)
-	}
 	iv := c16Interval
 	if !h.hand {
 		iv = time.Millisecond // a real ticker; the idle decision still reads the virtual clock
 	}
-	var api c16pub
-	if kind == "bulk" {
-		be := NewBulkExecutor(execute, WithBulkTasks(max), WithBulkInterval(iv))
-		h.pe = be.executor
-		api = c16pub{add: func(t, s int) { _ = be.Add(t) }, flush: be.Flush, wait: be.Wait}
-	} else {
-		ce := NewChunkExecutor(execute, WithChunkBytes(max), WithFlushInterval(iv))
-		h.pe = ce.executor
-		api = c16pub{add: func(t, s int) { _ = ce.Add(t, s) }, flush: ce.Flush, wait: ce.Wait}
-	}
-	if h.hand {
-		h.pe.newTicker = h.newTicker
-	}
+	api := c.build(h, c16config(kind, max, iv), "stress")
 	g := 2 + c.rng.Intn(2)
 	nops := 2 + c.rng.Intn(3)
 	env := h.env
@@ -727,23 +906,287 @@ func (c *c16) public(kind string) {
 			}
 		}
 	}
-	ok := h.run(g, func(p int, r *rand.Rand) {
-		for i := 0; i < nops; i++ {
-			c16jitter(r)
-			switch k := r.Intn(20); {
-			case k < 14:
-				id := int(h.ids.Add(1))
-				sz := sizes[r.Intn(len(sizes))]
-				h.call(p, "add", id, sz, func() { api.add(id, sz) })
-			case k < 17:
-				h.call(p, "wait", 0, 0, api.wait)
-			default:
-				h.call(p, "flush", 0, 0, api.flush)
+	if h.stress(api, g, nops, sizes, env) {
+		c.finish(h, api.wait)
+	}
+}
+
+// ---------------------------------------------------------------- directed: Adds on the retiring tick
+
+// retiring: Adds are placed at up to three points of the idle flusher's way out, each reached
+// through a seam the environment owns:
+//
+//	wave 0  on the retiring tick, after that tick's Flush found the container empty and before
+//	        shallQuit's lock region (the virtual-clock read of shallQuit is the scheduling point)
+//	wave 1  after the quit decision, inside the deferred ticker.Stop()
+//	wave 2  inside the execution of the retiring flusher's final Flush (needs wave 0 or 1)
+//
+// The Adds stay below the threshold.  Whoever accepts them while pe.guarded is still true starts
+// no new flusher, so the retiring flusher itself has to flush them (HeldCovered in
+// spec/PeriodicalImpl.tla); Adds that find guarded cleared start the next flusher.  Afterwards NO
+// Add, Flush or Wait is called: ticks and clock jumps alone run until no flusher is left, and the
+// `rest` event asks TLC whether anything was left behind.  Variant thr = 1 (kind per): the Add on
+// the retiring tick reaches the threshold and hands its batch over instead - the flusher must
+// then not retire (inflight) and executes it from the commander channel.
+var c16waves = [][3]int{{1, 0, 0}, {1, 0, 1}, {0, 1, 1}, {2, 0, 0}, {1, 1, 1}, {0, 2, 0}, {1, 0, 2}, {2, 1, 0}}
+
+func (c *c16) retiring(kind string, plan [3]int) {
+	c.count("hist_retiring")
+	h := c.newHist()
+	var cf c16cfg
+	sizes := []int{1}
+	switch kind {
+	case "bulk":
+		cf = c16config(kind, []int{5, 7, 0}[c.rng.Intn(3)], c16Interval)
+	case "chunk":
+		cf = c16config(kind, []int{13, 16, 0}[c.rng.Intn(3)], c16Interval)
+		sizes = []int{1, 2, 3}
+	default:
+		cf = c16config("per", []int{0, 5, 6, 1}[c.rng.Intn(4)], c16Interval)
+	}
+	if kind == "per" && cf.max == 1 {
+		plan = [3]int{1, 0, 0}
+	}
+	api := c.build(h, cf, "retiring")
+	type wave struct {
+		n       int
+		release chan struct{}
+		landed  chan struct{}
+		fired   atomic.Bool
+	}
+	waves := make([]*wave, 3)
+	waveOf := map[int]*wave{} // task id -> its wave (read-only once the callers exist)
+	// prelude: a live, idle flusher and an empty container
+	pre := c.rng.Intn(3)
+	if !h.step(func() {
+		h.call(1, "add", 1, 1, func() { api.add(1, 1, 1) })
+		switch pre {
+		case 1:
+			h.call(1, "flush", 0, 0, api.flush)
+		case 2:
+			h.call(1, "wait", 0, 0, api.wait)
+		}
+	}) {
+		return
+	}
+	kit.WaitFor(5*time.Second, func() bool { return h.live() != nil })
+	if pre == 0 || cf.max == 1 {
+		h.tick() // the tick flushes [1] (thr = 1: task 1 went through the commander; this tick only clears `commanded`)
+	}
+	executed := func() bool { h.mu.Lock(); defer h.mu.Unlock(); return h.execd[1] }
+	parked := func() bool { n, p := c16flushers(); return n == 1 && p }
+	ready := kit.WaitFor(5*time.Second, executed) && kit.WaitFor(5*time.Second, parked)
+	// the callers of the three waves, parked until the flusher reaches their point
+	var wg sync.WaitGroup
+	id := 1
+	for w := range waves {
+		wv := &wave{n: plan[w], release: make(chan struct{}), landed: make(chan struct{}, 8)}
+		waves[w] = wv
+		for i := 0; i < wv.n; i++ {
+			id++
+			waveOf[id] = wv
+			wg.Add(1)
+			p, t, sz := id, id, sizes[c.rng.Intn(len(sizes))]
+			go func() {
+				defer wg.Done()
+				<-wv.release
+				h.call(p, "add", t, sz, func() { api.add(p, t, sz) })
+				if kind != "per" {
+					wv.landed <- struct{}{} // public API: the Add has returned, so it has taken effect
+				}
+			}()
+		}
+	}
+	if rc, ok := h.pe.container.(*c16container); ok {
+		rc.onAdd = func(t int) {
+			if wv := waveOf[t]; wv != nil {
+				wv.landed <- struct{}{} // under pe.lock: the task is in the container (buffered, never blocks)
 			}
 		}
-	}, env)
-	if ok {
-		c.finish(h, api.wait)
+	}
+	fire := func(w int, fromSeam bool) {
+		wv := waves[w]
+		if !wv.fired.CompareAndSwap(false, true) {
+			return
+		}
+		close(wv.release)
+		for i := 0; fromSeam && i < wv.n; i++ {
+			if !c16soon(wv.landed, 5*time.Second) {
+				return // best effort: the point was not hit
+			}
+		}
+		if fromSeam && wv.n > 0 {
+			c.count([]string{"retiring_hit", "retiring_stop_hit", "retiring_final_hit"}[w])
+		}
+	}
+	clockSeam := func() { fire(0, true) }     // in the flusher, inside shallQuit's clock read
+	stopSeam := func() { fire(1, true) }      // in the flusher, inside the deferred ticker.Stop()
+	execSeam := func([]int) { fire(2, true) } // in the flusher, inside the next execution (the final Flush's)
+	if ready {
+		h.jump() // more than 10 idle intervals since the flusher last flushed
+		c.hook.Store(&clockSeam)
+		h.onStop.Store(&stopSeam)
+		h.onExec.Store(&execSeam)
+		h.tick() // the retiring tick: empty Flush, then shallQuit reads the clock
+		kit.WaitFor(5*time.Second, func() bool {
+			all := true
+			for _, wv := range waves {
+				all = all && (wv.n == 0 || wv.fired.Load())
+			}
+			return all || (h.live() == nil && !h.guarded())
+		})
+	}
+	c.hook.Store(nil)
+	h.onStop.Store(nil)
+	h.onExec.Store(nil)
+	for w := range waves {
+		fire(w, false) // (point not reached: the Adds still happen, the history is an ordinary one)
+	}
+	done := make(chan struct{})
+	go func() { wg.Wait(); close(done) }()
+	if !h.await(done, true) {
+		return
+	}
+	h.rest()
+	c.finish(h, api.wait)
+}
+
+// ---------------------------------------------------------------- several executors in one process
+
+// multi: two or three executors of one kind are created one after the other in this process,
+// the first with explicit options, later ones leaving out options that an earlier one set to
+// another value (bulk/chunk: task count / byte limit, flush interval; per: threshold container
+// and interval are constructor arguments).  Then they are used - in creation order, in reverse
+// order, or all at the same time - and each one's events form a history of its own, opened with
+// ITS configuration (default constants of the package for the options left out).  An executor
+// that relies on the default task count is filled past it by one caller, so that the size
+// trigger and the batch bound of the default are exercised.
+func (c *c16) multi(kind string) {
+	c.count("hist_multi")
+	n := 2 + c.rng.Intn(2)
+	conc := c.rng.Intn(3) == 0
+	if conc {
+		c.count("multi_concurrent")
+	}
+	ivs := []time.Duration{time.Minute, 3 * time.Second, 250 * time.Millisecond}
+	cfs := make([]c16cfg, n)
+	for i := range cfs {
+		var max int
+		var iv time.Duration
+		expMax := i == 0 || (i < n-1 && c.rng.Intn(2) == 0)
+		expIv := i == 0 || c.rng.Intn(2) == 0
+		switch kind {
+		case "bulk":
+			if expMax {
+				max = []int{defaultBulkTasks + 300, 2, 7, 1}[c.rng.Intn(4)]
+				if i == 0 && c.rng.Intn(2) == 0 {
+					max = defaultBulkTasks + 300
+				}
+			}
+		case "chunk":
+			if expMax {
+				max = []int{2 * defaultChunkSize, 8, 10, 1}[c.rng.Intn(4)]
+				if i == 0 && c.rng.Intn(2) == 0 {
+					max = 2 * defaultChunkSize
+				}
+			}
+		default:
+			expMax, expIv = true, true
+			max = []int{1, 2, 3, 4, 0}[(i+c.rng.Intn(4))%5]
+		}
+		if expIv {
+			iv = ivs[(i+c.rng.Intn(2))%len(ivs)]
+		}
+		cfs[i] = c16config(kind, max, iv)
+	}
+	hs := make([]*c16hist, n)
+	apis := make([]c16pub, n)
+	for i, cf := range cfs { // creation, in sequence
+		h := c.newHist()
+		h.bufd, h.solo = true, !conc
+		hs[i] = h
+		apis[i] = c.build(h, cf, "multi")
+		c.count("multi_execs")
+		if kind != "per" && (!cf.expMax || !cf.expIv) {
+			c.count("multi_defaulted")
+		}
+	}
+	fillAt := -1 // the executor that is filled past the default task count (the last one relying on it)
+	for i, cf := range cfs {
+		if kind == "bulk" && !cf.expMax {
+			fillAt = i
+		}
+	}
+	work := func(i int) {
+		h, cf, api := hs[i], cfs[i], apis[i]
+		h.t0 = time.Now()
+		var ok bool
+		switch {
+		case i == fillAt:
+			// one caller adds more tasks than the default batch size in a row; the environment stays
+			// quiet meanwhile (it starts ticking after 2 s, should the caller be stuck)
+			total := cf.max + 1 + h.rng.Intn(20)
+			ok = h.run(1, func(p int, r *rand.Rand) {
+				for j := 0; j < total; j++ {
+					id := int(h.ids.Add(1))
+					h.call(p, "add", id, 1, func() { api.add(p, id, 1) })
+				}
+			}, func(r *rand.Rand, stop <-chan struct{}) {
+				if !c16soon(stop, 2*time.Second) {
+					h.env(r, stop)
+				}
+			})
+		case kind == "chunk":
+			sizes := []int{1, 2, 5, 8, 10, 13}
+			if cf.max > 1000 {
+				sizes = []int{cf.max / 4, cf.max / 3, cf.max/2 + 1, cf.max - 1, cf.max, cf.max + 5, 1}
+			}
+			ok = h.stress(api, 2+h.rng.Intn(2), 2+h.rng.Intn(3), sizes, h.env)
+		default:
+			ok = h.stress(api, 2+h.rng.Intn(2), 2+h.rng.Intn(3), []int{1}, h.env)
+		}
+		if ok {
+			c.finish(h, api.wait)
+		}
+	}
+	if conc {
+		var wg sync.WaitGroup
+		for i := range hs {
+			wg.Add(1)
+			go func(i int) {
+				defer wg.Done()
+				work(i)
+			}(i)
+		}
+		wg.Wait()
+		if !c.hung.Load() {
+			if !kit.WaitGoroutines(c.base, 15*time.Second) {
+				c16infra("goroutines did not settle after a multi scenario: have %d want <= %d", runtime.NumGoroutine(), c.base)
+			}
+			for _, h := range hs {
+				if h.quiet {
+					h.ev(kit.M{"e": "quiesce"})
+					c.n.Add(1)
+				}
+			}
+		}
+	} else {
+		reverse := c.rng.Intn(2) == 0
+		for k := 0; k < n && !c.hung.Load(); k++ {
+			if reverse {
+				work(n - 1 - k)
+			} else {
+				work(k)
+			}
+		}
+	}
+	for _, h := range hs { // one history per executor, in creation order
+		h.bmu.Lock()
+		for _, m := range h.buf {
+			c.ev(m)
+		}
+		h.buf = nil
+		h.bmu.Unlock()
 	}
 }
 
@@ -765,8 +1208,9 @@ func TestVerifC16Trace(t *testing.T) {
 	kit.WaitFor(2*time.Second, func() bool { time.Sleep(5 * time.Millisecond); return runtime.NumGoroutine() >= 4 })
 	time.Sleep(20 * time.Millisecond)
 	c.base = runtime.NumGoroutine()
-	timex.SetVerifClock(c.clock.Now)
+	timex.SetVerifClock(c.now)
 	defer timex.SetVerifClock(nil)
+	c.turnM = kit.EnvInt("VERIF_SHARD", 0)
 	rounds := kit.EnvInt("VERIF_ROUNDS", 20)
 	only := kit.Env("VERIF_KIND", "")
 	scen := []struct {
@@ -775,6 +1219,12 @@ func TestVerifC16Trace(t *testing.T) {
 		fn    func()
 	}{
 		{"handover", 10, c.handover}, {"quitrace", 10, c.quitrace},
+		{"retiring", 2, func() {
+			c.turnR++
+			shard := kit.EnvInt("VERIF_SHARD", 0)
+			c.retiring([]string{"per", "bulk", "per", "chunk"}[(c.turnR+shard)%4], c16waves[(c.turnR+3*shard)%len(c16waves)])
+		}},
+		{"multi", kit.EnvInt("VERIF_MULTI_EVERY", 4), func() { c.turnM++; c.multi([]string{"bulk", "chunk", "per"}[c.turnM%3]) }},
 		{"per", 1, c.periodical}, {"per", 1, c.periodical},
 		{"bulk", 1, func() { c.public("bulk") }}, {"chunk", 1, func() { c.public("chunk") }},
 	}
@@ -787,18 +1237,18 @@ func TestVerifC16Trace(t *testing.T) {
 				continue
 			}
 			s.fn()
-			if c.hung {
+			if c.hung.Load() {
 				break // the stuck goroutines cannot be joined: stop recording, validate what was recorded
 			}
 		}
-		if c.hung {
+		if c.hung.Load() {
 			break
 		}
 	}
 	if err := tr.Close(); err != nil {
 		t.Fatal(err)
 	}
-	fmt.Printf("C16TRACES %d EVENTS %d", c.n, tr.N)
+	fmt.Printf("C16TRACES %d EVENTS %d", c.n.Load(), tr.N)
 	for _, k := range c16Counters {
 		fmt.Printf(" %s=%d", k, c.cnt[k].Load())
 	}
